@@ -20,7 +20,8 @@ and decoded with C19's `decodeBlock`.  `Msg.deadline` is the deadline of the mes
 wire).  A `ResponseWriter` is `Option Msg`: `none` = untouched (nothing will be sent).  `next` (the handler the
 layer hands complete messages to) is a parameter `App`.  Time is `Int` nanoseconds.  The per-entry semaphore
 (`messageGuard`) makes `processReceivedMessage` atomic per token; the model's step is that atomic section.
-Not modelled: the Observe branch (`isObserveResponse`, `handleObserveResponse`: fresh random token), message type.
+The Observe branch (`isObserveResponse`, `handleObserveResponse`: fresh token, `getSentRequestFromOutside`) is modelled on top of
+this file in `Model/BlockwiseObserve.lean`.  Not modelled: message type.
 Thresholds `<=` / `<`, the Block1 addend and the shape of the shortcut come from `Generated/BlockwiseXfer.lean`.
 -/
 namespace CoapVerif.Model.Blockwise
@@ -158,6 +159,9 @@ def sendOff (bt : BT) (szx num nb : Nat) : Nat := sendOffWith block1SkipsSent bt
 /-- the part of `createSendingMessage` after the offset is known: read up to `nb` bytes at `off`, derive `more` from
     the real end of the body, recompute NUM from the offset -/
 def createSendingAt (sm : Msg) (bt : BT) (szx off nb : Nat) : Option (Msg × Bool) :=
+  -- (F39) `body := sendingMessage.Body(); if body == nil { return error }`: a message without body — in this model the
+  -- empty body: nobody calls `SetBody` with an empty reader — has no block to send
+  if refusesBodylessSending = true ∧ sm.body = [] then none else
   -- io.ReadFull: EOF / ErrUnexpectedEOF are forgiven only when the read ended exactly at the end of the body
   if nb > 0 ∧ off > sm.body.length then none else
   if sm.body.length ≥ 4294967296 then none else
